@@ -108,6 +108,7 @@ def gen(S, tier):
         "app": spec, "path": path, "tail": tail, "exp_args": exp_args, "exp_opts": exp_opts,
         "target_hid": target["hid"], "verbosity": c.pick(["", "", "-v", "-vv", "-vvv"]), "quiet": c.chance(0.1),
         "ansi": c.chance(0.5), "script": script, "listeners": listeners,
+        "stream_encoding": c.weighted([(None, 7), ("utf-8", 1), ("ascii", 1), ("latin-1", 1), ("cp1252", 0.5), ("no-such-codec", 0.3)]),
         "origin": f.weighted([("harness", 5), ("simfile", 2), ("simfile_fault", 2), ("exec", 2)]),
         # how the handler is attached: an object with handle(), or a callable wrapped in CallbackHandler
         "handler_kind": c.pick(["object", "object", "callback", "callback_var"]),
@@ -147,8 +148,8 @@ def simplify(sc):
     if sc["listeners"]:
         yield dict(sc, listeners=sc["listeners"][:-1])
         yield dict(sc, listeners=[])
-    for k, v in (("verbosity", ""), ("quiet", False), ("ansi", False), ("origin", "harness")):
-        if sc[k] != v:
+    for k, v in (("verbosity", ""), ("quiet", False), ("ansi", False), ("origin", "harness"), ("stream_encoding", None)):
+        if sc.get(k) != v:
             yield dict(sc, **{k: v})
     steps = sc["script"]
     if steps and steps[-1][0] == "raise" and isinstance(steps[-1][1], dict):
@@ -273,6 +274,13 @@ def execute(sc):
             tokens.append("-q")
         out = SimOutputStream("out", log, ansi=sc["ansi"])
         err = SimOutputStream("err", log, ansi=sc["ansi"])
+        if sc.get("stream_encoding"):
+            # clikit's own StreamOutputStream over a text file of that encoding (errors="replace":
+            # what cannot be encoded does not fail the write); supports_utf8() is the stream's own answer
+            from ..realstream import RealStreamOutput, SimFile
+            out = RealStreamOutput(SimFile("out", log, encoding=sc["stream_encoding"], strict=False), sc["ansi"])
+            err = RealStreamOutput(SimFile("err", log, encoding=sc["stream_encoding"], strict=False), sc["ansi"])
+            res.probe("real_stream_" + sc["stream_encoding"])
         inp = SimInputStream(log, [])
         raised = None
         status = None
